@@ -29,7 +29,8 @@ META = dict(
             "int16 index overflow above 32767 units per annotator",
     stubs=["numba.njit = identity (kernel runs as plain Python)", "np float arrays = object arrays of z3 reals",
            "np.empty float elements = arbitrary values (fresh symbols)", "d_mat = one free symbol >= 0 per unit pair (any symmetric dissimilarity)"],
-    assumptions=["real-number arithmetic instead of float32 (all but the ieee configurations)", "ieee configurations: round-to-nearest-even, numba promotion int64 (op) float32 -> float64, "
+    assumptions=["scaled-capacity configurations: every integer literal >= 1000 of the kernel is scaled with the capacity (10000 -> C0, 30000 -> 3 C0 ...)",
+                 "real-number arithmetic instead of float32 (all but the ieee configurations)", "ieee configurations: round-to-nearest-even, numba promotion int64 (op) float32 -> float64, "
                  "explicit-signature arguments converted on entry; validated on 70 knife-edge inputs against the real numba kernel each run", "d_mat symmetric, d_mat >= 0, delta_empty > 0",
                  "scaled-capacity sub-check substitutes the literal in `chunk_size = 10000` only"],
     cfg_budget_s=dict(quick=150, thorough=900),
@@ -50,7 +51,7 @@ def configs(tier):
     for s in q:
         out.append(dict(key=f"sizes={s}", sizes=list(s), chunk=None, cost=len(common.all_tuples(s))))
     # C0 >= 2: the growth step is C0 // 2, which is 0 for C0 = 1 (an artefact of scaling, 10000 // 2 != 0)
-    for s, c0 in [((2, 2), 2), ((2, 2), 3), ((2, 2), 4), ((3, 1), 2), ((3, 1), 3), ((2, 1, 1), 5)]:
+    for s, c0 in [((2, 2), 2), ((2, 2), 3), ((2, 2), 4), ((3, 1), 2), ((3, 1), 3), ((2, 1, 1), 5), ((3, 2), 2)]:
         out.append(dict(key=f"sizes={s},C0={c0}", sizes=list(s), chunk=c0, cost=len(common.all_tuples(s)) * 2))
     # the public path valid_alignments(continuum) = array building + kernel, for dissimilarities that DECLARE more categories than the
     # continuum uses (labels a..d declared, b and d used): candidates against the unit-to-unit form d() of the same dissimilarity
@@ -65,7 +66,7 @@ def configs(tier):
     if tier == "thorough":
         for s in [(3, 3), (2, 2, 1), (1, 1, 1, 1), (4, 2), (0, 1, 2), (3, 1, 1)]:
             out.append(dict(key=f"sizes={s}", sizes=list(s), chunk=None, cost=len(common.all_tuples(s)) * 4))
-        for s, c0 in [((3, 2), 2), ((3, 2), 3), ((3, 2), 5), ((2, 2, 1), 3), ((2, 2, 1), 5), ((3, 2), 4)]:
+        for s, c0 in [((3, 2), 3), ((3, 2), 5), ((2, 2, 1), 3), ((2, 2, 1), 5), ((3, 2), 4), ((2, 2, 1), 2)]:
             out.append(dict(key=f"sizes={s},C0={c0}", sizes=list(s), chunk=c0, cost=len(common.all_tuples(s)) * 5))
         for s in [(2, 2, 2), (1, 1, 1, 1, 1), (3, 3, 1)]:
             out.append(dict(key=f"sizes={s},semi", sizes=list(s), chunk=None, semi=6, cost=400))
@@ -96,6 +97,11 @@ def scaled_kernel(ns, c0):
     if hits != 1:
         _SCALED[c0] = None
         return None
+    # every OTHER large integer literal of the kernel (>= 1000: a capacity, a cap on the growth ...) is scaled by the same factor,
+    # so that whatever is expressed relative to the buffer capacity happens inside the bound as well
+    for node in ast.walk(fdef):
+        if isinstance(node, ast.Constant) and type(node.value) is int and node.value >= 1000 and node.value != c0:
+            node.value = max(1, (node.value * c0) // 10000)
     ast.fix_missing_locations(tree)
     glb = ns.ds.__dict__
     loc = {}
@@ -450,9 +456,11 @@ def _oracle(sizes, de, pairs):
 
 def replay(case):
     if case.get("kind") == "growth-real":
-        r = _growth_positional()
-        if not r["reproduced"] and r.get("rows", 0) <= 15000:
-            return dict(reproduced=None, detail="the cross-check continuum no longer crosses the 15000 boundary")
+        r = _growth_positional(case.get("m", 140))
+        if not r["reproduced"] and r.get("rows", 0) <= (15000 if case.get("m", 140) == 140 else 33750) and r.get("expected", 0) > (15000 if case.get("m", 140) == 140 else 33750):
+            return dict(reproduced=True, detail=f"{r.get('rows')} candidates returned, {r.get('expected')} expected: " + r["detail"])
+        if not r["reproduced"] and r.get("expected", 0) <= (15000 if case.get("m", 140) == 140 else 33750):
+            return dict(reproduced=None, detail="the cross-check continuum no longer crosses the intended buffer boundary")
         return r
     if case.get("kind") == "ieee-kernel":
         return _replay_ieee(case)
@@ -466,7 +474,13 @@ def replay(case):
         r = replay(dict(case, chunk=None))
         if r.get("reproduced"):
             return r
-        return _growth_positional()
+        for m_, boundary in ((140, 15000), (205, 33750)):      # 10000 / 15000, then 22500 / 33750
+            r = _growth_positional(m_)
+            if not r["reproduced"] and r.get("rows", 0) < r.get("expected", 0):
+                r = dict(reproduced=True, detail=f"{r.get('rows')} candidates returned, {r.get('expected')} expected")
+            if r["reproduced"]:
+                return r
+        return r
     if sum(sizes) > 127:
         return dict(reproduced=None, detail="too many units for int8 category replay")
     try:
@@ -538,13 +552,14 @@ def _growth_positional(m=140):
                 bad += 1
     dup = len(got) != len(al)
     return dict(reproduced=bool(bad or dup), detail=f"rows={len(al)} expected>={expected} mismatches={bad} dup={dup} near-threshold-skipped={near}",
-                rows=len(al))
+                rows=len(al), expected=expected)
 
 
 def real_checks(tier):
     """concrete cross-check at the REAL buffer capacity: 2 x 140 units (19880 tuples, > 15000 candidates: two growths) on the real build
     against a float64 oracle - a defect that needs the real 10000 / 15000 boundaries is reported as a violation"""
-    return [dict(kind="growth-real", name="candidates of a 2x140-unit continuum across the real 10000 / 15000 buffer boundaries == oracle")]
+    return [dict(kind="growth-real", name="candidates of a 2x140-unit continuum across the real 10000 / 15000 buffer boundaries == oracle"),
+            dict(kind="growth-real", m=205, name="candidates of a 2x205-unit continuum across the real 22500 / 33750 buffer boundaries == oracle")]
 
 
 def tv_cases(tier):
